@@ -58,9 +58,13 @@ ASSUMPTIONS = [
     "per-policy conventions are named constants of the record (conv): ILP/Z3 closed intervals (gap 1) at every start "
     "point, TetriSched half-open slots at every start point, EDF/FIFO/LSF/Clockwork the invocation instant only; "
     "a running task holds its worker until now + remaining time; an over-commitment is charged to a call only when "
-    "one of its new placements takes part in it",
-    "solver instances are bounded by the restricted Gurobi / CPLEX community licences; calls that exceed them are "
-    "skipped and counted (licence_skips), never judged",
+    "one of its new placements takes part in it; for the instant-only policies the pending plans of SCHEDULED tasks are "
+    "not counted (they never plan ahead themselves)",
+    "direct calls: a planner is given the lookahead / release_taskgraphs setting of the prefix policy; calls of a "
+    "re-planning (retract) policy on a state with SCHEDULED tasks outside its own frontier are dropped and counted "
+    "(outside_frontier) - the simulations of part (a) run the same policies on states they produced themselves",
+    "solver instances are bounded by the restricted Gurobi / CPLEX community licences; calls that exceed them, and "
+    "calls that do not return within 40 s wall clock, are skipped and counted (licence_and_timeout_skips), never judged",
     "preemptive scheduling, Clockwork's run_load and ILP/CPLEX batching=True are outside the generated option space",
 ]
 
@@ -70,14 +74,15 @@ ASSUMPTIONS = [
 
 def conv_of(kind, opts):
     if kind == "ilp":
-        return {"gap": 1, "instants": "starts", "startLB": 1, "grid": 1}
+        return {"gap": 1, "instants": "starts", "plans": "kept", "startLB": 1, "grid": 1}
     if kind in ("ts_gurobi", "ts_cplex"):
-        return {"gap": 0, "instants": "starts", "startLB": 0, "grid": max(1, int(opts.get("disc", 1)))}
+        return {"gap": 0, "instants": "starts", "plans": "kept", "startLB": 0, "grid": max(1, int(opts.get("disc", 1)))}
     if kind == "z3":
         # Z3 separates independent tasks strictly (s1 + rem1 < s2) but lets a child start exactly when its parent
         # ends (>=): only the half-open reading is common to both, and it is the simulator's own
-        return {"gap": 0, "instants": "starts", "startLB": 0, "grid": 1}
-    return {"gap": 0, "instants": "now", "startLB": 0, "grid": 1}
+        return {"gap": 0, "instants": "starts", "plans": "kept", "startLB": 0, "grid": 1}
+    # EDF / FIFO / LSF / Clockwork plan the invocation instant on the live cluster only
+    return {"gap": 0, "instants": "now", "plans": "ignored", "startLB": 0, "grid": 1}
 
 
 def make_policy(kind, o):
@@ -272,6 +277,7 @@ class Recorder:
         placements, exc = None, None
 
         def on_alarm(signum, frame):
+            signal.alarm(2)  # a solver callback swallows the exception: keep trying until it lands in Python code
             raise _CallTimeout(f"schedule() did not return within {wall}s")
 
         old = signal.signal(signal.SIGALRM, on_alarm)
@@ -303,6 +309,10 @@ class Recorder:
             raised = f"{type(exc).__name__}: {exc}"[:300]
             if LICENCE_RE.search(raised) or LICENCE_RE.search(type(exc).__name__):
                 self.skips["licence:" + kind] += 1
+                return placements, exc
+            if isinstance(exc, _CallTimeout):
+                # slow (shared machine, hard instance) and hung cannot be told apart: counted, not judged
+                self.skips["timeout:" + kind] += 1
                 return placements, exc
         rec = {
             "id": 0,
@@ -470,7 +480,7 @@ def gen_prefix_world(rnd):
                   "rtg": rnd.random() < 0.3, "cancel_rate": 0.0}  # fmt: skip
     w["flags"]["frequency"] = rnd.choice([-1, 1, 2])
     _with_loading(w)
-    w["stop_at"] = rnd.randint(2, 7)
+    w["stop_at"] = rnd.randint(2, 4)
     return w
 
 
@@ -717,7 +727,16 @@ def run_prefix_world(world, widx, tier, wall=150):
             if kind == "clockwork" and opts.get("start"):
                 pol.start(sim_time, box["profs"], pools)
             src = {"part": "direct", "widx": widx}
+            n0 = len(rec.records)
             rec.call(kind, opts, pol, sim_time, workload, pools, src)
+            if opts.get("retract") and len(rec.records) > n0:
+                # a re-planning policy only knows the SCHEDULED tasks inside its frontier; a state whose scheduled
+                # tasks lie outside it was not produced under this policy's own options (the prefix policy delays
+                # parents arbitrarily): not an input the statement quantifies over - dropped and counted
+                r = rec.records[-1]
+                if any(t["st"] == 3 and i not in r["offered"] for i, t in enumerate(r["tasks"], start=1)):
+                    rec.records.pop()
+                    rec.skips["outside_frontier:" + kind] += 1
             if (rec.proj_tasks(), rec.proj_cluster(pools)) != before:
                 # the state is no longer the one the prefix reached: the remaining policies are not called on it
                 out["corrupted_by"] = f"{kind}({opts_str(opts)})"
@@ -830,8 +849,39 @@ def sanity_mc():
     return r
 
 
+def canary_base():
+    """a hand-written valid record (Decision.tla's GoodEdf): now = 10, task 1 runs on worker 1 (2 gpus) until 13,
+    task 2 is SCHEDULED on worker 2 (1 gpu) at 12, tasks 3 and 4 are offered, task 5 is a VIRTUAL child"""
+    gpu = lambda q: [{"name": "gpu", "id": "any", "q": q}]  # noqa: E731
+    nosd = {"dem": [], "rt": -1, "bs": 0, "bid": 0}
+    noplan = {"pool": 0, "wk": 0, "sd": nosd, "tm": -1}
+    sd = lambda q, rt: {"dem": gpu(q), "rt": rt, "bs": 1, "bid": 0}  # noqa: E731
+    st = lambda q, rt: {"dem": gpu(q), "rt": rt, "bs": 1}  # noqa: E731
+    tk = lambda s, rel, strats, plan, rem: {"st": s, "rel": rel, "dl": 50, "strats": strats, "plan": plan, "rem": rem}  # noqa: E731
+    tasks = [
+        tk(4, 5, [st(1, 8)], {"pool": 1, "wk": 1, "sd": sd(1, 8), "tm": 5}, 3),
+        tk(3, 8, [st(1, 3)], {"pool": 1, "wk": 2, "sd": sd(1, 3), "tm": 12}, 3),
+        tk(2, 9, [st(2, 4), st(1, 6)], noplan, 6),
+        tk(2, 10, [st(1, 2)], noplan, 2),
+        tk(1, -1, [st(1, 2)], noplan, 2),
+    ]
+    cluster = [[
+        {"insts": [{"name": "gpu", "id": "g1", "cap": 2}], "av": [1], "occ": [{"t": 1, "dem": gpu(1), "fin": 13, "bid": 0}]},
+        {"insts": [{"name": "gpu", "id": "g2", "cap": 1}], "av": [1], "occ": []},
+    ]]  # fmt: skip
+    snap = {"ts": [{"st": t["st"], "plan": t["plan"]} for t in tasks], "cl": [[{"av": w["av"]} for w in cluster[0]]]}
+    return {
+        "id": -100, "policy": "edf", "opts": "canary", "conv": conv_of("edf", {}), "now": 10, "raised": "", "offered": [3, 4],
+        "tasks": tasks, "cluster": cluster,
+        "decs": [{"kind": 4, "t": 4, "placed": True, "pool": 1, "wk": 0, "sd": sd(1, 2), "tm": 10},
+                 {"kind": 4, "t": 3, "placed": False, "pool": 0, "wk": 0, "sd": nosd, "tm": -1}],
+        "pre": snap, "post": pycopy.deepcopy(snap), "src": {"part": "canary"},
+    }  # fmt: skip
+
+
 def canaries(good):
-    """corrupted copies of a valid real record -> (record, clause that must reject it)"""
+    """corrupted copies of the valid hand-written record -> (record, clause that must reject it): the whole pipeline
+    (JSON -> TLC -> parsed verdict lines) must name the right clause"""
     out = []
 
     def mut(clause, fn):
@@ -840,25 +890,19 @@ def canaries(good):
         r["id"] = -(len(out) + 1)
         out.append((r, clause))
 
-    placed = [i for i, d in enumerate(good["decs"]) if d["kind"] == 4 and d["placed"]]
-    i0 = placed[0]
-    t0 = good["decs"][i0]["t"]
+    i0, t0 = 0, 4
     mut("C10.returns", lambda r: r.update(raised="RuntimeError: canary", decs=[]))
-    mut("C10.one_per_task", lambda r: r["decs"].append(dict(r["decs"][i0])))
-    mut("C10.answers_all", lambda r: r["decs"].pop(i0) if r["policy"] in ("edf", "fifo", "lsf", "ilp", "ts_gurobi", "ts_cplex") else r.update(raised="x"))
-    mut("C10.only_offered", lambda r: r.update(offered=[t for t in r["offered"] if t != t0]))
-    mut("C10.names_exist", lambda r: r["decs"][i0].update(pool=len(r["cluster"]) + 1))
-    mut("C10.strategy_of_task", lambda r: r["decs"][i0]["sd"].update(rt=r["decs"][i0]["sd"]["rt"] + 1000))
-    mut("C10.time_not_past", lambda r: r["decs"][i0].update(tm=r["now"] - 1))
-    mut("C10.time_not_before_release", lambda r: r["tasks"][t0 - 1].update(rel=r["decs"][i0]["tm"] + 1))
+    mut("C10.one_per_task", lambda r: r["decs"].append(dict(r["decs"][1])))
+    mut("C10.answers_all", lambda r: r["decs"].pop(i0))
+    mut("C10.only_offered", lambda r: r.update(offered=[3]))
+    mut("C10.names_exist", lambda r: r["decs"][i0].update(pool=2))
+    mut("C10.strategy_of_task", lambda r: r["decs"][i0]["sd"].update(rt=7))
+    mut("C10.time_not_past", lambda r: (r["decs"][i0].update(tm=9), r["tasks"][t0 - 1].update(rel=8)))
+    mut("C10.time_not_before_release", lambda r: r["tasks"][t0 - 1].update(rel=11))
 
     def overload(r):
-        d = r["decs"][i0]
-        for e in d["sd"]["dem"]:
-            e["q"] += 50
-        for s in r["tasks"][t0 - 1]["strats"]:
-            for e in s["dem"]:
-                e["q"] += 50
+        r["decs"][i0]["sd"]["dem"][0]["q"] = 3
+        r["tasks"][t0 - 1]["strats"][0]["dem"][0]["q"] = 3
 
     mut("C10.capacity", overload)
     mut("C10.side_effect_free", lambda r: r["post"]["ts"][t0 - 1].update(st=3))
@@ -872,7 +916,7 @@ def canaries(good):
 def _norm_exc(msg):
     m = re.sub(r"[0-9a-f]{8}-[0-9a-f-]{27}", "<id>", msg)
     m = re.sub(r"\b[A-Za-z0-9_]+@[A-Za-z0-9_@]+", "<task>", m)
-    m = re.sub(r"-?\d+(\.\d+)?", "N", m)
+    m = re.sub(r"(?<![A-Za-z_])-?\d+(\.\d+)?(?![A-Za-z_])", "N", m)
     return m[:110]
 
 
@@ -898,7 +942,7 @@ def make_plan(tier):
     rnd = random.Random(f"c10:{seed()}:{tier}")
     if tier == "quick":
         n_sim = {"edf": 4, "fifo": 3, "lsf": 5, "ilp": 6, "ts_gurobi": 4, "ts_cplex": 3, "clockwork": 3}
-        n_prefix = 10
+        n_prefix = 14
     else:
         n_sim = {"edf": 60, "fifo": 50, "lsf": 60, "ilp": 110, "ts_gurobi": 70, "ts_cplex": 50, "clockwork": 50}
         n_prefix = 240
@@ -949,10 +993,8 @@ def run(tier: str) -> CheckResult:
     if not records:
         raise RuntimeError("no scheduler call was recorded")
 
-    # canaries from the first valid-looking record with a placement
-    good = next((r for r in records if not r["raised"] and r["policy"] in ("edf", "fifo") and r["pre"] == r["post"]
-                 and any(d["kind"] == 4 and d["placed"] for d in r["decs"])), None)  # fmt: skip
-    cans = canaries(good) if good is not None else []
+    good = canary_base()
+    cans = canaries(good)
 
     nb = 4 if tier == "quick" else 12
     batches = [b for b in (records[k::nb] for k in range(nb)) if b]
@@ -979,9 +1021,9 @@ def run(tier: str) -> CheckResult:
         for f in cj["fails"]:
             failing[f["id"]].add(f["clause"])
         if failing.get(good["id"]):
-            pass  # judged with its batch as well; reported there
+            raise tlc.TLCMachineryError(f"the hand-written valid record is rejected: {sorted(failing[good['id']])}")
         for c, clause in cans:
-            ok = clause in failing.get(c["id"], set())
+            ok = failing.get(c["id"], set()) == {clause}
             canary_report.append({"clause": clause, "rejected": ok, "failing": sorted(failing.get(c["id"], set()))})
             if not ok:
                 raise tlc.TLCMachineryError(f"canary for {clause} was not rejected (got {sorted(failing.get(c['id'], set()))})")
@@ -1052,7 +1094,7 @@ def run(tier: str) -> CheckResult:
             "exercised_features_by_policy": {p: dict(sorted(c.items())) for p, c in sorted(ex_by_policy.items())},
             "failing_records_by_key": {k: len(v) for k, v in sorted(by_key.items())},
             "side_clause_notes": dict(collections.Counter(f"{by_id[s['id']]['policy']}:{s['clause']}" for s in sides if s["id"] in by_id)),
-            "licence_skips": dict(skips),
+            "licence_and_timeout_skips": dict(skips),
             "sim_worlds": len(sims),
             "sim_ends": dict(sorted(sim_ends.items())),
             "prefix_worlds": len(prefixes),
